@@ -15,8 +15,8 @@ import (
 // wait group
 //
 // Ghost state: element e is "definitely pending" from the return of an Add(e) that no Done(e) overlapped or
-// followed, until the next Done(e) is invoked. The trigger must happen inside a Done call, and no element may
-// have been definitely pending during that whole call. At quiescence (all calls returned): an element that is
+// followed, until the next Done(e) is invoked. The trigger must happen inside an Add or Done call, and no element
+// may have been definitely pending during that whole call. At quiescence (all calls returned): an element that is
 // definitely pending must be listed by PendingElements, one whose last Done was invoked after all its Adds had
 // returned must not be, and if elements were added and none is pending the group must have triggered.
 
@@ -38,7 +38,7 @@ func waitGroupBody(s *simrt.Sim) {
 	doneSeq := make([]int, n+1)
 	doneInFlight := make([]int, n+1)
 	var calls []*wgCall
-	curDone := map[*simrt.Task]*wgCall{}
+	curCall := map[*simrt.Task]*wgCall{}
 	for _, e := range initial {
 		pendingSince[e] = 1
 	}
@@ -51,16 +51,16 @@ func waitGroupBody(s *simrt.Sim) {
 	wg.OnTrigger(func() {
 		triggers++
 		step := s.Tick()
-		dc := curDone[simrt.Current()]
+		dc := curCall[simrt.Current()]
 		if dc == nil {
-			s.Fail("wait-group", "triggered-outside-done", "the wait group triggered at step %d on a task that is not inside a Done call", step)
+			s.Fail("wait-group", "triggered-outside-add-or-done", "the wait group triggered at step %d on a task that is not inside an Add or Done call", step)
 		}
 		for e := 1; e <= n; e++ {
 			if pendingSince[e] != 0 && pendingSince[e] < dc.inv {
-				s.Fail("wait-group", "triggered-while-element-pending", "triggered at step %d inside Done%v [%d,..] although element %d is pending since step %d", step, dc.elems, dc.inv, e, pendingSince[e])
+				s.Fail("wait-group", "triggered-while-element-pending", "triggered at step %d inside a call on %v invoked at %d although element %d is pending since step %d", step, dc.elems, dc.inv, e, pendingSince[e])
 			}
 		}
-		s.Logf("TRIGGERED inside Done%v", dc.elems)
+		s.Logf("TRIGGERED inside call on %v (add=%v)", dc.elems, dc.add)
 	})
 	s.Logf("config initial=%v nodupadd=%v", initial, noDupAdd)
 
@@ -105,7 +105,9 @@ func waitGroupBody(s *simrt.Sim) {
 				}
 				c.inv = s.Tick()
 				s.Logf("Add%v", es)
+				curCall[simrt.Current()] = c
 				wg.Add(es...)
+				delete(curCall, simrt.Current())
 				c.ret = s.Tick()
 				for _, e := range es {
 					if ok[e] && doneSeq[e] == snap[e] && pendingSince[e] == 0 {
@@ -142,10 +144,10 @@ func waitGroupBody(s *simrt.Sim) {
 					doneSeq[e]++
 					doneInFlight[e]++
 				}
-				curDone[me] = c
+				curCall[me] = c
 				s.Logf("Done%v", es)
 				wg.Done(es...)
-				delete(curDone, me)
+				delete(curCall, me)
 				c.ret = s.Tick()
 				for _, e := range es {
 					doneInFlight[e]--
